@@ -173,9 +173,9 @@ def hist_laws(cx, line, reply):
 
 
 # ---------------------------------------------------------------------------------------------- dictionary histories
-def f50_fixed(cx):
-    """dict.c with fixes/F50.diff: the model variant `dictf` mirrors the repaired dict_insert (DESIGN §2.7: a `fixed` finding suppresses nothing)"""
-    return cx.findings.get("F50", {}).get("status") == "fixed" or "F50" in os.environ.get("VERIF_ASSUME_FIXED", "").split(",")
+def f110_fixed(cx):
+    """dict.c with fixes/F110.diff: the model variant `dictf` mirrors the repaired dict_insert (DESIGN §2.7: a `fixed` finding suppresses nothing)"""
+    return cx.findings.get("F110", {}).get("status") == "fixed" or "F110" in os.environ.get("VERIF_ASSUME_FIXED", "").split(",")
 
 
 def gen_dict(rng, nops, balanced, fixed=False):
@@ -192,7 +192,7 @@ def gen_dict(rng, nops, balanced, fixed=False):
     ops = []
 
     def prefix_ok(v, ln):
-        # the F50 corner needs H(prefix) == H(whole): keep it out of the general stream (it has its own witnesses)
+        # the F110 corner needs H(prefix) == H(whole): keep it out of the general stream (it has its own witnesses)
         return fixed or ln == 0 or ln == len(v) or (jenkins(v[:ln]) & mask) != (jenkins(v) & mask)
 
     up = True
@@ -265,7 +265,7 @@ def dict_walks():
         yield "dict %d %d %s" % (size, mask, ",".join(ops)), True
 
 
-F50_WITNESSES = [
+F110_WITNESSES = [
     # (A) the dictionary holds "abX"; insert(buf="abX", len=2) is the insertion that enlarges the table, every hash collides:
     #     the new record (still pointing at the caller's buffer) is re-inserted with strcmp, found "equal", dropped; LY_ENOTFOUND
     "dict 8 0 i.616258.0.0,i.63.0.0,i.64.0.0,i.65.0.0,i.66.0.0,D,i.616258.2.0,D",
@@ -382,7 +382,7 @@ def run_ht(cx):
     for n in list(range(0, 70)) + [2 ** k + d for k in range(6, 32) for d in (-1, 0, 1)] + [NO, NO - 1]:
         cases.append("fixed %d" % (n & 0xFFFFFFFF))
     dict_cases = []
-    fixed = f50_fixed(cx)
+    fixed = f110_fixed(cx)
     dop = "dictf " if fixed else "dict "
     for l in exhaustive_dict(cx.n(3, 4)):
         dict_cases.append((l.replace("dict ", dop, 1), False))
@@ -426,8 +426,8 @@ def run_ht(cx):
             if not last.endswith(":0:-"):
                 cx.fail("dict", "balanced history does not end with the empty dictionary", {"line": l, "last": last[:500]})
     cx.dist["ht:ops-total"] += nops
-    # the known corner F50 (hash as a parameter: every collision is possible) — witnesses evaluated on the implementation
-    wl = ["%d ht %s" % (i, w.replace("dict ", dop, 1)) for i, w in enumerate(F50_WITNESSES)]
+    # the known corner F110 (hash as a parameter: every collision is possible) — witnesses evaluated on the implementation
+    wl = ["%d ht %s" % (i, w.replace("dict ", dop, 1)) for i, w in enumerate(F110_WITNESSES)]
     rw = {}
     for l in wl:        # one process each: (B) leaks by nature, LSan reports it again at every later check and at exit
         rw.update(cx.run_impl(HARNESS, [l], component="dict", crash_is_failure=False))
@@ -435,9 +435,9 @@ def run_ht(cx):
     for l in wl:
         i = l.split()[0]
         a, b = rw.get(i, ["err", "NoReply"]), rmw.get(i, ["err", "NoReply"])
-        cx.count(("F50", l), True, "dict:F50-witness")
+        cx.count(("F110", l), True, "dict:F110-witness")
         if [x for x in a if x != "LEAK"] != b:
             cx.disagree("ht", l, a, b)
         dict_laws(cx, l, a, False)
     if fixed:
-        cx.notes.append("F50 is marked fixed: dictionary histories run against the repaired model variant (dictf), prefix collisions included")
+        cx.notes.append("F110 is marked fixed: dictionary histories run against the repaired model variant (dictf), prefix collisions included")
